@@ -6,43 +6,53 @@ import json, os, shutil, subprocess, sys, tempfile
 HERE = os.path.dirname(os.path.abspath(__file__))
 ROOT = os.path.dirname(HERE)
 
-def main(unit, only=None):
-    st = json.load(open(os.path.join(ROOT, "units", unit, "selftest.json")))
-    bad = 0
-    for mut in st:
-        if only and mut["name"] != only:
-            continue
-        tmp = tempfile.mkdtemp(prefix="verif-selftest-")
+def one(unit, mut):
+    """returns (bad, lines)"""
+    lines = []
+    tmp = tempfile.mkdtemp(prefix="verif-selftest-")
+    try:
+        for d in ("src", "cpp/src"):
+            shutil.copytree(os.path.join("/repo", d), os.path.join(tmp, d))
+        p = os.path.join(tmp, mut["file"])
+        s = open(p).read()
+        if s.count(mut["find"]) != 1:
+            return 1, [f"[{unit}] {mut['name']}: anchor found {s.count(mut['find'])} times -> SKIP(lost anchor)"]
+        open(p, "w").write(s.replace(mut["find"], mut["replace"]))
+        # each variant gets its own build directory (variants run concurrently) and skips the vacuity canaries
+        bdir = os.path.join(tmp, "build")
+        os.makedirs(bdir, exist_ok=True)
+        env = dict(os.environ, VERIF_REPO=tmp, VERIF_NO_CANARY="1", VERIF_BUILD=bdir)
+        r = subprocess.run([sys.executable, os.path.join(HERE, "run_unit.py"), unit], capture_output=True, text=True, env=env)
+        got = {0: "ok", 1: "fail", 2: "undecided"}.get(r.returncode, "?")
+        names = []
         try:
-            for d in ("src", "cpp/src"):
-                shutil.copytree(os.path.join("/repo", d), os.path.join(tmp, d))
-            p = os.path.join(tmp, mut["file"])
-            s = open(p).read()
-            if s.count(mut["find"]) != 1:
-                print(f"[{unit}] {mut['name']}: anchor found {s.count(mut['find'])} times -> SKIP(lost anchor)")
-                bad += 1
-                continue
-            open(p, "w").write(s.replace(mut["find"], mut["replace"]))
-            env = dict(os.environ, VERIF_REPO=tmp)
-            r = subprocess.run([sys.executable, os.path.join(HERE, "run_unit.py"), unit], capture_output=True, text=True, env=env)
-            got = {0: "ok", 1: "fail", 2: "undecided"}.get(r.returncode, "?")
-            names = []
+            names = [f["obligation"] for f in json.loads(r.stdout)["failures"]]
+        except Exception:
+            pass
+        ok = got == mut["expect"]
+        lines.append(f"[{unit}] {mut['name']}: expected {mut['expect']} got {got} {'OK' if ok else 'MISMATCH'} {names[:2]}")
+        if not ok and got == "undecided":
             try:
-                names = [f["obligation"] for f in json.loads(r.stdout)["failures"]]
+                lines.append("   reason: " + json.loads(r.stdout)["reason"][:600])
             except Exception:
-                pass
-            ok = got == mut["expect"]
-            print(f"[{unit}] {mut['name']}: expected {mut['expect']} got {got} {'OK' if ok else 'MISMATCH'} {names[:2]}")
-            if not ok:
-                bad += 1
-                if got == "undecided":
-                    try:
-                        print("   reason:", json.loads(r.stdout)["reason"][:600])
-                    except Exception:
-                        print(r.stdout[-400:])
-        finally:
-            shutil.rmtree(tmp, ignore_errors=True)
+                lines.append(r.stdout[-400:])
+        return (0 if ok else 1), lines
+    finally:
+        shutil.rmtree(tmp, ignore_errors=True)
+
+
+def main(unit, only=None):
+    import concurrent.futures as cf
+    st = json.load(open(os.path.join(ROOT, "units", unit, "selftest.json")))
+    muts = [m for m in st if not only or m["name"] == only]
+    bad = 0
+    with cf.ThreadPoolExecutor(max_workers=int(os.environ.get("VERIF_SELFTEST_JOBS", "4"))) as ex:
+        for b, lines in ex.map(lambda m: one(unit, m), muts):
+            bad += b
+            for ln in lines:
+                print(ln)
     return 1 if bad else 0
+
 
 if __name__ == "__main__":
     sys.exit(main(sys.argv[1], sys.argv[2] if len(sys.argv) > 2 else None))
